@@ -540,6 +540,14 @@ class FxGrammar(Case):
         for text, value in ex:
             hist = [rng.choice(bad_inputs), rng.choice(ex)[0]] if rng.random() < 0.5 else [rng.choice(bad_inputs)]
             yield ("expr", "grammar", {"text": text, "value": value, "history": hist}, (lambda t=text, v=value, h=hist: one(t, v, h)))
+        # the expression itself, then an expression that is rejected only after part of it was pushed on the
+        # module-level stack (unbalanced parentheses, trailing operator, leading ')'), then the expression again:
+        # the value must not come from what the rejected parse left behind (nor from a remembered parse)
+        partial = ["( max + 100", "7 * 6 )", ") 1", "2 * ( 3 + mean", "min + 2 *", "( ( std )"]
+        for text, value in ex[:: max(1, len(ex) // 12)][:12] + [("mean + 2 * std", self.STATS["mean"] + 2 * self.STATS["std"]), ("max", self.STATS["max"])]:
+            for bad in partial:
+                for hist in ([text, bad], [text, bad, bad], [bad, text, bad]):
+                    yield ("expr", "grammar", {"text": text, "value": value, "history": hist}, (lambda t=text, v=value, h=hist: one(t, v, h)))
         # the same expression evaluated before on other statistics: the same numbers under other names, the same
         # names in another order, one statistic changed - the value depends on the statistics handed over now
         S0 = self.STATS
